@@ -203,9 +203,9 @@ Proof.
     rewrite IH. reflexivity.
 Qed.
 
-Lemma Quiet_do_tick s : Quiet s (fst (do_tick s)).
+Lemma Quiet_join_exited s : Quiet s (fst (join_exited s)).
 Proof.
-  unfold do_tick, join_exited.
+  unfold join_exited.
   set (s1 := mark_all_lost s).
   assert (H1 : Quiet s s1).
   { unfold s1, mark_all_lost. apply Quiet_map_jobs. intros x.
@@ -214,20 +214,35 @@ Proof.
   set (rem := filter (fun p => negb (exited s1 p)) (wlist s1)).
   assert (H2 : Quiet s (with_wlist s1 rem))
     by (eapply Quiet_trans; [exact H1|apply Quiet_same; reflexivity]).
-  destruct cl as [|c0 cl0].
-  - pose proof (Quiet_repopulate (Z.to_nat (nprocs (with_wlist s1 rem) - Z.of_nat (length (wlist (with_wlist s1 rem))))) 0 [] (with_wlist s1 rem)) as H3.
-    destruct (repopulate _ 0 [] (with_wlist s1 rem)) as [s3 r]. cbn [fst] in H3.
-    destruct r; cbn [fst];
-      (eapply Quiet_trans; [exact H2|]; eapply Quiet_trans; [exact H3|apply Quiet_same; reflexivity]).
-  - set (s2 := down_all (with_wlist s1 rem) (c0 :: cl0) rem).
-    assert (H3 : Quiet s s2).
-    { eapply Quiet_trans; [exact H2|]. unfold s2, down_all. apply Quiet_map_jobs. intros x.
-      destruct (incache x); [apply Q_on_job_down|apply Q_refl]. }
-    pose proof (Quiet_repopulate (Z.to_nat (nprocs s2 - Z.of_nat (length (wlist s2)))) 0
-                                 (map (exit_of s1) (c0 :: cl0)) s2) as H4.
-    destruct (repopulate _ 0 (map (exit_of s1) (c0 :: cl0)) s2) as [s3 r]. cbn [fst] in H4.
-    destruct r; cbn [fst];
-      (eapply Quiet_trans; [exact H3|]; eapply Quiet_trans; [exact H4|apply Quiet_same; reflexivity]).
+  destruct cl as [|c0 cl0]; cbn [fst]; [exact H2|].
+  eapply Quiet_trans; [exact H2|]. unfold down_all. apply Quiet_map_jobs. intros x.
+  destruct (incache x); [apply Q_on_job_down|apply Q_refl].
+Qed.
+
+Lemma Quiet_do_tick s : Quiet s (fst (do_tick s)).
+Proof.
+  unfold do_tick. pose proof (Quiet_join_exited s) as H0.
+  destruct (join_exited s) as [s1 codes]. cbn [fst] in H0.
+  pose proof (Quiet_repopulate (Z.to_nat (nprocs s1 - Z.of_nat (length (wlist s1)))) 0 codes s1) as H3.
+  destruct (repopulate _ 0 codes s1) as [s3 r]. cbn [fst] in H3.
+  destruct r; cbn [fst];
+    (eapply Quiet_trans; [exact H0|]; eapply Quiet_trans; [exact H3|apply Quiet_same; reflexivity]).
+Qed.
+
+Lemma Quiet_do_close s : Quiet s (do_close s).
+Proof. unfold do_close. destruct (pstate s =? 0); [apply Quiet_same; reflexivity|apply Quiet_refl]. Qed.
+
+Lemma Quiet_do_tick_close s k : Quiet s (fst (do_tick_close s k)).
+Proof.
+  unfold do_tick_close. pose proof (Quiet_join_exited s) as H0. pose proof (Quiet_do_tick s) as Ht.
+  destruct (join_exited s) as [s1 codes]. cbn [fst] in H0.
+  destruct (Z.to_nat (nprocs s1 - Z.of_nat (length (wlist s1))) <=? k)%nat; [exact Ht|].
+  pose proof (Quiet_repopulate (S k) 0 codes s1) as H3.
+  destruct (repopulate (S k) 0 codes s1) as [s3 r]. cbn [fst] in H3.
+  destruct r; cbn [fst];
+    try (eapply Quiet_trans; [exact H0|]; eapply Quiet_trans; [exact H3|apply Quiet_same; reflexivity]).
+  eapply Quiet_trans; [exact H0|]. eapply Quiet_trans; [exact H3|].
+  eapply Quiet_trans; [apply Quiet_do_close|apply Quiet_same; reflexivity].
 Qed.
 
 Lemma Quiet_shrink_loop : forall ws i n s, Quiet s (fst (shrink_loop ws i n s)).
@@ -296,13 +311,14 @@ Proof.
   - unfold do_shrink. destruct (inactive s0) as [|w ws]; [apply Quiet_refl|].
     destruct (LaxSem.value (sem s0) <? Z.min (Z.max n 1) (Z.of_nat (length (w :: ws))));
       [apply Quiet_refl|]. apply Quiet_shrink_loop.
-  - destruct (pstate s0 =? 0); cbn [fst]; [apply Quiet_same; reflexivity|apply Quiet_refl].
+  - apply Quiet_do_close.
   - unfold do_next. destruct (get_job s0 j) as [x|]; [|apply Quiet_refl].
     destruct (negb (is_imap x)); [apply Quiet_refl|].
     destruct (items x); cbn [fst].
     + destruct (okey_eqb (Some (index x)) (ilength x)); cbn [fst]; [|apply Quiet_refl].
       apply Quiet_set_job. intros y. apply Q_mk_imap. auto.
     + apply Quiet_set_job. intros y. apply Q_mk_imap. auto.
+  - apply Quiet_do_tick_close.
 Qed.
 
 (* ------------------------------------------------------------ the invariant *)
